@@ -10,6 +10,9 @@ use fast_qr::verif;
 use serde_json::{json, Value};
 use std::sync::atomic::{AtomicU64, Ordering};
 
+/// selection instances decided black-box because the recorder was not reached
+pub static BLACKBOX: AtomicU64 = AtomicU64::new(0);
+
 pub struct Selection {
     pub emitted: usize,
     /// (lo, hi) documented penalty of candidate k
@@ -43,6 +46,35 @@ pub fn check_selection(input: &[u8], o: &Opts) -> (Vec<(String, String)>, Option
             return (out, None, Some(digest));
         }
     };
+    if cands.is_empty() {
+        // the recorder was never reached (hook H2 removed or the loop restructured): decide black-box.
+        // Candidate k = the forced-mask-k build with its format modules blanked, which is how the crate
+        // prepares candidates at the pinned commit (format information is written after the selection).
+        BLACKBOX.fetch_add(1, Ordering::Relaxed);
+        let enc: Vec<bool> = g.reg.iter().map(|&x| x == Reg::Data).collect();
+        let mut pens = [(0u32, 0u32); 8];
+        for k in 0..8usize {
+            let fo = Opts { mask: Some(k as u8), version: Some(v as u8), ecl: q.ecl.map(|e| subject::ecl_idx(e) as u8), mode: q.mode.map(|m| subject::mode_idx(m) as u8) };
+            match subject::build(input, &fo) {
+                Outcome::Ok(qk) if qk.size == n => {
+                    let mut vals = subject::values(&qk);
+                    for i in 0..n * n {
+                        if g.reg[i] == Reg::Format {
+                            vals[i] = false;
+                        }
+                    }
+                    pens[k] = r::penalty(&vals, &enc, n);
+                }
+                _ => return (out, None, Some(digest)),
+            }
+        }
+        let min_hi = pens.iter().map(|p| p.1).min().unwrap();
+        if pens[emitted].0 > min_hi {
+            let best = pens.iter().position(|p| p.1 == min_hi).unwrap();
+            out.push(("not-minimal".into(), format!("v{}: emitted mask {} has documented penalty {} but mask {} has {} (all eight, black-box: {:?})", v, emitted, pens[emitted].0, best, min_hi, pens.iter().map(|p| p.1).collect::<Vec<_>>())));
+        }
+        return (out, Some(Selection { emitted, pens, used: [0; 8] }), Some(digest));
+    }
     if cands.len() != 8 {
         out.push(("candidate-count".into(), format!("{} mask candidates were tried instead of 8", cands.len())));
         return (out, None, Some(digest));
@@ -207,6 +239,11 @@ pub fn run(ctx: &Ctx) -> Collector {
         }
         col.space(json!({"name": sp.name, "what": sp.describe, "cases": n, "selection_instances": okc.load(Ordering::Relaxed), "exhaustive": true,
             "violations": col.violation_count.load(Ordering::Relaxed) - viol0, "wall_s": (t0.elapsed().as_secs_f64() * 100.0).round() / 100.0}));
+    }
+    let bb = BLACKBOX.load(Ordering::Relaxed);
+    col.set("selection_instances_decided_black_box_because_hook_H2_was_not_reached", json!(bb));
+    if bb > 0 {
+        col.assume("WEAKENED: hook H2 was not reached; candidates were reconstructed from the eight forced-mask builds with format modules blanked");
     }
     col.set("selection_instances_with_tied_minimum", json!(ties.load(Ordering::Relaxed)));
     col.set("selection_instances_with_a_candidate_on_a_5_percent_edge", json!(edge.load(Ordering::Relaxed)));
